@@ -2,6 +2,9 @@ package stream_api_accept
 
 import (
 	"context"
+	"crypto/ed25519"
+
+	"github.com/aperturerobotics/bifrost/crypto"
 
 	"github.com/aperturerobotics/bifrost/link"
 	"github.com/aperturerobotics/bifrost/peer"
@@ -61,5 +64,47 @@ func VerifC34Accept() {
 	rt.Assert("offers a resolver iff protocol, local peer and remote list admit the stream", (len(res) != 0) == want)
 	res, err = c.HandleDirective(context.Background(), c34DI{d: c34Other{}})
 	rt.Assert("other directives are ignored", err == nil && len(res) == 0)
+	rt.Reach("end")
+}
+
+func c34RealPeer(b byte) peer.ID {
+	seed := make([]byte, 32)
+	seed[0] = b
+	std := ed25519.NewKeyFromSeed(seed)
+	_, pub, err := crypto.KeyPairFromStdKey(&std)
+	if err != nil {
+		panic(err)
+	}
+	id, err := peer.IDFromPublicKey(pub)
+	if err != nil {
+		panic(err)
+	}
+	return id
+}
+
+// VerifC34AcceptConfigured: the same filter, with the controller built from its configuration (text
+// peer ids) by NewController: the configured local peer and remote list are the ones enforced.
+func VerifC34AcceptConfigured() {
+	ids := []peer.ID{c34RealPeer(1), c34RealPeer(2)}
+	conf := &Config{ProtocolId: "p"}
+	var cfgLocal peer.ID
+	if k := rt.Choose("cfgLocal", 3); k > 0 {
+		cfgLocal = ids[k-1]
+		conf.LocalPeerId = cfgLocal.String()
+	}
+	var remotes []peer.ID
+	if k := rt.Choose("cfgRemote", 3); k > 0 {
+		remotes = append(remotes, ids[k-1])
+		conf.RemotePeerIds = []string{ids[k-1].String()}
+	}
+	c, err := NewController(logrus.NewEntry(logrus.New()), conf, nil)
+	rt.Assert("configuration accepted", err == nil && c != nil)
+	pid := []string{"p", "q"}[rt.Choose("streamProtocol", 2)]
+	local := ids[rt.Choose("streamLocal", 2)]
+	remote := ids[rt.Choose("streamRemote", 2)]
+	res, err := c.HandleDirective(context.Background(), c34DI{d: link.NewHandleMountedStream(protocol.ID(pid), local, remote)})
+	rt.Assert("no error", err == nil)
+	want := pid == "p" && (cfgLocal == "" || cfgLocal == local) && (len(remotes) == 0 || remotes[0] == remote)
+	rt.Assert("a configured controller offers a resolver iff protocol, local peer and remote list admit the stream", (len(res) != 0) == want)
 	rt.Reach("end")
 }
